@@ -158,4 +158,27 @@ theorem forLoop_cons (bind : DV α × Nat → Env α → Env α) (body : Env α 
       simp only [List.map_cons, List.mapM_cons, encSmp] at ih ⊢
       simp [ih]
 
+/-- a sample list with payloads of any type (`intersection` is used with values, with the pairs of `split`, …) -/
+def encSigP {β : Type} (encP : β → DV α) (o : List (Tm × β)) : DV α := .list (o.map (fun p => .smp p.1 (encP p.2)))
+
+theorem encSigP_val (s : ASig α) : encSigP (fun x : α => DV.val x) s = encSig s := rfl
+
+/-- the pairs `intersect.split` builds -/
+def encPair (p : α × α) : DV α := .pair (.val p.1) (.val p.2)
+
+/-- What `RtamtProofs/GenDenseInter.lean` proves about the translated `intersection` (stated here so that the files about
+    the callers of `intersection` do not depend on that proof): for a method `m` of the function table that computes `f` on
+    two values, payloads that can be stored in a sample and compared by `!=` as `ne` compares them, the call returns a
+    4-tuple whose first component is the list the mirror `inter f ne` computes - or raises what the mirror raises. -/
+def InterSpec (α : Type) [Val α] (fuel k : Nat) : Prop :=
+  ∀ (β : Type) (encP : β → DV α) (f : α → α → β) (ne : β → β → Bool) (m : String),
+    (∀ a b, callAt Gen.Dense.fns fuel (k + 1) m [.val a, .val b] = .ok (encP (f a b))) →
+    (∀ x, toPayload (encP x) = .ok (encP x)) →
+    (∀ x y, cmpDV .ne (encP x) (encP y) = .ok (ne x y)) →
+    ∀ (s1 s2 : ASig α), s1.length + s2.length + 4 ≤ fuel →
+      match inter f ne s1 s2 with
+      | .ok o => ∃ a b c, callAt Gen.Dense.fns fuel (k + 2) "intersection" [encSig s1, encSig s2, .fn m]
+                    = .ok (.list [encSigP encP o, a, b, c])
+      | .error e => callAt Gen.Dense.fns fuel (k + 2) "intersection" [encSig s1, encSig s2, .fn m] = .error e
+
 end Rtamt.Py.Dn
